@@ -23,7 +23,7 @@ CHECK = {
             'that breaks the statement breaks the proof; corollaries for the SetSpecValidator route and, with k8s-valid annotations, for every entry point on the written '
             'documents; timeout proviso shown necessary. Tie: random library-valid Specs with the numeric extremes of every integer field through Validate, WriteSpec / '
             'ReadSpec with and without SetSpecValidator(BuiltinSchema()), ValidateFile / ValidateData on the written .json / .yaml; json.Marshal image = model encoder; the '
-            'boolean body of the theorem is evaluated on every generated Spec (search when the proof breaks).',
+            'boolean body of the theorem is evaluated on every generated Spec (search when the proof breaks). required_members_always_encoded: no member the schema requires is omitempty in the regenerated struct layout.',
     'note': 'Full at the value / document level; the file routes by execution. lib_ok is stated explicitly (to be derived from the C05 model). Trusted: Coq kernel + '
             'vm_compute; the two translators; harness. No axioms.',
     'technique': 'Coq proof per struct over regenerated schema and layout + differential correspondence via vm_compute',
